@@ -132,6 +132,28 @@ CLAIMED = {
   note="Lean kernel; Spec is hand-written (tied by the prog stream); resource exhaustion is outside the claim and ends runs as "
        "`inconclusive` through the fuel hook; panics inside third-party crates are observed, not modelled (except slyce's index conversion).",
   technique="Lean 4 proof (no-wrong lemmas, signal containment) + panic oracle on generated programs and host calls", ref="DESIGN.md §6 C02"),
+ "C04": dict(
+  text="Lean 4 theorems about Spec: every rewrite rule the Recreate pass applies is an equivalence (same value, same store, same "
+       "signal): an operator on two constants is the operator's own exec and touches no store; `true && b` = b, `false && b` = "
+       "false without evaluating b, the || duals, `if` on a constant condition, `while false`, dropping a non-final constant "
+       "statement; and every error it may report at parse time is raised whenever the operation is evaluated, whatever the other "
+       "operand, environment and store (x / 0, x % 0, shifts by a constant outside 0..=63, constant index outside an n-element "
+       "array, negative constant length). Which operator is folded through which exec is tied to the source by C08's translated "
+       "tables. Propagation through names (a substitution lemma) is NOT proved. For the running code: twin execution of each "
+       "program next to two constant-hidden variants (identity call, read of a fresh cell); a parse-time error must be "
+       "justified by an always-failing constant operation found by an independent constant evaluator.",
+  note=SPEC_NOTE + " The Recreate pass itself is not modelled (no `Instr` model yet); the twin oracle and the justification scan bound what is seen.",
+  technique="Lean 4 proof (rewrite rules are Spec equivalences) + twin-program execution on the implementation", ref="DESIGN.md §6 C04"),
+ "C17": dict(
+  text="Lean 4 theorem about Spec: for every split xs ++ ys of a statement list, the batch run equals running xs and then ys in the "
+       "environment and store xs left (induction on xs; fuel spelled out exactly as the batch run spends it), i.e. REPL = batch at "
+       "every boundary; evaluation is a function of program, environment and store; a host call admits an argument vector exactly "
+       "when the in-language call on those constants does. Oracles on the real API: every split of generated statement sequences "
+       "through Code::parse + exec_unscoped on one interpreter vs. one batch parse of each prefix (last result and all top-level "
+       "values at each boundary); interpreter bindings before / after exec and three executions of one Code; "
+       "Function::create_call vs. the in-language call (admissibility and result).",
+  note=SPEC_NOTE + " The incremental route may accept more programs (it sees values): only boundaries where both routes complete are compared.",
+  technique="Lean 4 proof (batch = incremental for every split) + REPL/batch, re-exec and host-call oracles", ref="DESIGN.md §6 C17"),
 }
 NOT_YET = "machinery for this property is not built yet in this round (planned, see DESIGN.md §6)"
 
